@@ -97,7 +97,8 @@ PROPS = {
         "assumptions": ["router driven single-threadedly through hooks H1-H3 (guard --cfg rumqtt_verif): Router::verif_events / verif_consume, link-side buffers via rumqttd::verif::new_buffers"],
     },
     "C16": {
-        "runs": [{"vh": "router", "driver": "router C16", "args": ["--profile", "c16"], "shards_thorough": 16, "selftest": False}],
+        "runs": [{"vh": "router", "driver": "router C16", "args": ["--profile", "c16"], "shards_thorough": 16, "selftest": False}, {"vh": "stack", "driver": "stack C16", "args": ["--profile", "will"], "shards_thorough": 8}],
+        "lean_extra_targets": ["Proofs.Props.C16srv"],
         "trusted_base": ["Router model Model/Router/{Types,Step}.lean: one step = one Router::events(id, ev) or one Router::consume(); link-side pushes/drains are separate steps; Rust panic sites explicit (Fail.panic); HashMap iteration orders that are observable and the Random strategy's draw are oracle inputs recorded by hook H3 and checked for admissibility", "Monitors Model/Router/Monitors.lean (executable spec evaluated on the implementation's observable trace, using the model's ghost history, which is trustworthy while model and implementation agree on every output)"],
         "modelled": ['meters, alerts, tracing, print_status, tenant prefix, message expiry (generators keep expiry out of range)', 'thread interleavings inside one Router::consume() (link-side drain between two router-side lock acquisitions) are not generated: ops are atomic', "flume channel capacity of the router's event channel, parking_lot mutexes"],
         "assumptions": ["router driven single-threadedly through hooks H1-H3 (guard --cfg rumqtt_verif): Router::verif_events / verif_consume, link-side buffers via rumqttd::verif::new_buffers"],
@@ -109,7 +110,8 @@ PROPS = {
         "assumptions": ["router driven single-threadedly through hooks H1-H3 (guard --cfg rumqtt_verif): Router::verif_events / verif_consume, link-side buffers via rumqttd::verif::new_buffers"],
     },
     "C19": {
-        "runs": [{"vh": "router", "driver": "router C19", "args": ["--profile", "c19"], "shards_thorough": 16, "selftest": False}],
+        "runs": [{"vh": "router", "driver": "router C19", "args": ["--profile", "c19"], "shards_thorough": 16, "selftest": False}, {"vh": "admit", "selftest": True, "shards_thorough": 8}, {"vh": "stack", "driver": "stack C19", "args": ["--profile", "c19"], "shards_thorough": 8}],
+        "lean_extra_targets": ["Proofs.Props.C19net"],
         "trusted_base": ["Router model Model/Router/{Types,Step}.lean: one step = one Router::events(id, ev) or one Router::consume(); link-side pushes/drains are separate steps; Rust panic sites explicit (Fail.panic); HashMap iteration orders that are observable and the Random strategy's draw are oracle inputs recorded by hook H3 and checked for admissibility", "Monitors Model/Router/Monitors.lean (executable spec evaluated on the implementation's observable trace, using the model's ghost history, which is trustworthy while model and implementation agree on every output)"],
         "modelled": ['meters, alerts, tracing, print_status, tenant prefix, message expiry (generators keep expiry out of range)', 'thread interleavings inside one Router::consume() (link-side drain between two router-side lock acquisitions) are not generated: ops are atomic', "flume channel capacity of the router's event channel, parking_lot mutexes"],
         "assumptions": ["router driven single-threadedly through hooks H1-H3 (guard --cfg rumqtt_verif): Router::verif_events / verif_consume, link-side buffers via rumqttd::verif::new_buffers"],
@@ -133,6 +135,13 @@ PROPS = {
             "keep-alive values are whole seconds (v4 setter: 0 or >= 1 s, v5 setter: >= 5 s; v5 server_keep_alive any u16)",
             "an answer at exactly t+k is outside the hypothesis of no_false_alarm (both outcomes are accepted and recorded)",
         ],
+    },
+    "C20": {
+        "runs": [{"vh": "stack", "driver": "stack C20", "args": ["--profile", "c20"], "selftest": True, "shards_thorough": 8}],
+        "trusted_base": ["Admission model Model/Admission.lean (mqtt_connect + handle_auth on top of the codec model of the listener's decoder; external callback = parameter), spec Model/AdmissionSpec.lean", 'Server will model Model/ServerWill.lean (will-handler map incl. mutex poisoning, Fire/Cancel, will delay; Rust panics explicit), Encode model Model/Encode.lean (Notification -> Packet -> V4/V5::write via the codec model)', "Packet-level stack model Model/Stack.lean composed from these (used only for the correspondence); monitors in Driver/StackD.lean are written against the property text and evaluated on the implementation's observables", 'vh stack: real per-connection tasks (hook H4 verif_remote) + real router thread over tokio::io::duplex, client side = rumqttc v4/v5 codecs; paused clock with auto-advance inhibited, outcomes observed as events (bytes, EOF, JoinHandle), barrier = two PINGREQ/PINGRESP rounds; every scripted case executed twice, transcripts must be equal'],
+        "modelled": ["tokio scheduling and timer accuracy (virtual time), flume channels, the router thread's interleaving with the connection tasks (ops are serialised by protocol-level barriers)", 'TLS / websocket listeners, tenant prefixes, uuid generation (assigned client ids masked)', 'QoS 2, retained messages, shared subscriptions and redelivery to resumed sessions are outside the stack scenarios (router-level checks cover them)'],
+        "assumptions": ["Emittable: value ranges of the Rust field types (u16 packet ids and aliases, subscription ids within the variable-byte limit, topic through a 16-bit length prefix) and frames within the MQTT size limit; towards a v4 connection no broker alias / subscription id exists (they come from MQTT 5 CONNECT / SUBSCRIBE properties)",
+                        "known findings (KNOWN_FINDINGS.txt): V4::write unreachable!() on a PUBLISH with properties (kernel-checked witness C20.v4_forward_with_properties_panics, _partial theorem excludes exactly that trigger); broker topic alias keyed by the subscription filter (C20.alias_keyed_by_filter_confuses_topics)"],
     },
 }
 
